@@ -14,7 +14,7 @@ CLAIMS = {
             'RF55 kill set of memory availability, RF62 combiner memory staleness, RF63 one-step builtin conversions, RF64 range predicates on un-narrowed values, '
             'RF30 no cloning of switch/jmpi blocks, RF68 memory-clobber opcodes in GVN availability, RF69 alloca escape through call arguments, RF70 loop-phi guard of ssa_combine, '
             'RF18b rewrite classifiers, RF32 incl. the combiner move, RF67 null-then-dereference, RF32t trapping divisions (abstract execution of the LICM guard), '
-            'RF86 division folds cannot trap, RF87 power-of-two width, RF97 call liveness of by-value blocks, RF9 overflow producers are flag-setting instructions (no lea), RF99 tied globals at calls (known finding), RF110 machinize-eliminated FP opcodes not produced by the combiner, RF114 renaming shortcut of make_conventional_ssa (lost copy / swap), RF70 incl. the branch folder, RF120 growth loops',
+            'RF86 division folds cannot trap, RF87 power-of-two width, RF97 call liveness of by-value blocks, RF9 overflow producers are flag-setting instructions (no lea), RF99 tied globals at calls (known finding), RF110 machinize-eliminated FP opcodes not produced by the combiner, RF114 renaming shortcut of make_conventional_ssa (lost copy / swap), RF70 incl. the branch folder, RF120 growth loops, RF131 spill/restore order at one place, RF48b opcode maps',
             'Decides named structural clauses that are necessary conditions of generator/interpreter equivalence: the GVN constant '
             'folder applies per opcode the same C operator on the same operand width/signedness as the interpreter; every opcode that '
             'reaches instruction selection has a pattern; x86 encodings carry the width, signedness and condition code the opcode name '
@@ -42,14 +42,14 @@ CLAIMS = {
             'RF28 alloca consolidation by path-wise linear forms, RF29 simplified memory operands, RF16j label forwarding-pointer scrub, RF38/41/48 '
             'folding and reversal tables, RF45 fresh merge registers, RF46 top alloca precedes calls, RF50 fresh inline registers, RF51 alignment inside the consolidated alloca area, '
             'RF56 inliner reads the API view of the callee, RF71 scans that run off the list, RF72 jump over code after a replaced ret, RF73 block argument copies released, '
-            'RF83 result extension in front of the common ret, RF90 merged alloca runs once, RF91 own register of the merged alloca, RF98 insertions inside the call bracket, RF100 address arithmetic never follows an overflow producer, RF113 link-time passes are not re-entered',
+            'RF83 result extension in front of the common ret, RF90 merged alloca runs once, RF91 own register of the merged alloca, RF98 insertions inside the call bracket, RF100 address arithmetic never follows an overflow producer, RF113 link-time passes are not re-entered, RF48b no opcode map negates an ordered FP relation, RF46 incl. branches',
             'Decides that the link-time shortcut set is disjoint from overflow-flag producers, that result/argument extension maps agree '
             'with the target\'s, that label bookkeeping covers every label-carrying opcode, that the inliner\'s consolidated alloca size '
             'covers every offset it hands out, that memory operands it builds are base-only, and that label forwarding pointers used '
             'while copying a callee are reset on every path. Register renaming and value-level behaviour are not decided.',
             '3 C04'),
     'C05': ('ABI constant agreement (RF10), block class mapping (RF10b), argument-register counter discipline (RF10c/d), long double '
-            'stack-slot alignment (RF10e), trampoline cache-key completeness and separation (RF12/RF12b), container growth not skipped '
+            'stack-slot alignment (RF10e), trampoline cache-key completeness and separation (RF12/RF12b), frame pointer kept around an sp bracket (RF126), container growth not skipped '
             '(RF3b), %al count (RF10h), block stack placement (RF10i), result extension after the result move (RF10j), prologue frame residues mod 16 (RF65), '
             'per-call trampoline buffer (RF47), narrowing maps (RF7f), extension map (RF7e), result moves anchored at the call (RF84), zero-size block copy template (RF74), '
             'sp-dependent instructions not moved by the combiner (RF32), call liveness of by-value blocks (RF97)',
@@ -60,7 +60,7 @@ CLAIMS = {
             '3 C05'),
     'C06': ('ABI constant agreement for the callee side (RF10/RF10b/RF10e): callee-saved set, vararg save-area layout, incoming long '
             'double slot alignment; VA_START and shim block tables (RF10f/g); save/restore symmetry of the machine-code templates (RF11); '
-            'single-return invariant (RF30); x86 pattern table incl. emission-time rewrites (RF9); prologue frame residues mod 16 by dataflow (RF65); spill-slot reuse inside the allocated slots (RF43)',
+            'single-return invariant (RF30); x86 pattern table incl. emission-time rewrites (RF9); prologue frame residues mod 16 by dataflow (RF65); spill-slot reuse inside the allocated slots (RF43), interpreter shim block fetch vs psABI (RF111), nothing saved below sp (RF127)',
             'Decides table/constant agreement with the psABI, template symmetry, and that no pass can create a second return that the '
             'single epilogue would miss; does not decide register allocation.', '3 C06'),
     'C10': ('tagged-union discipline in the text writer (RF6), writer/scanner vocabulary agreement (RF7c), scanner input function '
@@ -70,7 +70,7 @@ CLAIMS = {
             'is not decided.', '3 C10'),
     'C11': ('binary writer/reader vocabulary agreement (RF7d), label provenance (RF15), padding of type-punned temporaries (RF14), '
             'tagged-union discipline (RF6), byte callbacks as the only sink/source (RF7j), encoder counter discipline (RF13c), token payload read once (RF75), '
-            'memory operand fields by abstract execution of writer and reader (RF82), shared header reader (RF96), compression layer verdict (RF88), reserved-name bookkeeping in the reader (RF85b), opcode acceptance agreement of writer and reader (RF115), label counter kept ahead of explicit label numbers (RF121)',
+            'memory operand fields by abstract execution of writer and reader (RF82), shared header reader (RF96), compression layer verdict (RF88), reserved-name bookkeeping in the reader (RF85b), opcode acceptance agreement of writer and reader (RF115), label counter kept ahead of explicit label numbers (RF121), scalar operand mode survives the binary form (RF129)',
             'Decides vocabulary agreement between write_* and read_*, that lref labels come from the reader\'s label table, and that no '
             'indeterminate byte reaches the output stream. Value encodings are not decided.', '3 C11'),
     'C12': ('bounded-write guard coverage in the decoder (RF13, including copy helpers and the written-prefix clause for back references), no wrap of the 32-bit '
@@ -85,7 +85,7 @@ CLAIMS = {
             'is bound on every non-error path from the module item table; the redefinition error is guarded by exactly the reference '
             'guard set; table probes use interned names. History semantics are not decided.', '3 C13'),
     'C14': ('size-pass/placement-pass agreement and initialisation obligation in load_bss_data_section (RF16f), provenance of '
-            'resolved addresses in MIR_link (RF16d), store-width agreement (RF7f), contiguity clause (RF16f), lref detection over all items (RF53), lref list rebuilt on reload (RF76), section published at its head (RF79), interpreter label unit (RF89), placement pass leaves lref cells alone (RF16f lref clause)',
+            'resolved addresses in MIR_link (RF16d), store-width agreement (RF7f), contiguity clause (RF16f), lref detection over all items (RF53), lref list rebuilt on reload (RF76), section published at its head (RF79), interpreter label unit (RF89), placement pass leaves lref cells alone (RF16f lref clause), expr data store width (RF128)',
             'Decides that both passes use the same kind predicates and per-kind size expressions, that bss is zeroed on every load, and '
             'that forward/export addresses come from the definition found in the module item table. Byte contents are not decided.',
             '3 C14'),
@@ -97,11 +97,11 @@ CLAIMS = {
     'C16': ('duplicate/restore protocol on every generation path (RF16a/b/i), scratch use of insn data scrubbed (RF16j), no instruction write '
             'before the working copy exists (RF16k), label-operand '
             'positions (RF7g), lref cell written by one engine (RF42b, known finding), API view of a callee (RF56), generator stores only engine-private '
-            'descriptor fields (RF66), direct-call patching needs machine code (RF77), generator state that outlives a function is reset on every path (RF107), growth loops of parallel vectors (RF120)',
+            'descriptor fields (RF66), direct-call patching needs machine code (RF77), generator state that outlives a function is reset on every path (RF107), growth loops of parallel vectors (RF120), thunk re-targeted by every interface setter (RF31b)',
             'Decides the must-pass-through protocol of generate_func_code, sibling agreement of saved/restored fields, and that every '
             'forwarding pointer parked in the original labels while instructions are copied is reset on every path.', '3 C16'),
     'C17': ('who-may-call allocator confinement (RF1), init/finish create-destroy pairing (RF2/RF27), single owner of item data (RF2b), realloc old-size contract (RF3), '
-            'code-memory write protocol (RF4), ownership of locally created containers and objects on every path (RF78, RF78b), region allocator of c2mir released only at session end (RF109), interpreter data released on every branch of MIR_link (RF122)',
+            'code-memory write protocol (RF4), ownership of locally created containers and objects on every path (RF78, RF78b), region allocator of c2mir released only at session end (RF109), interpreter data released on every branch of MIR_link (RF122), owning slots of the generator context (RF130)',
             'Decides for every function of the three library units that no C-library allocator is referenced outside the default '
             'callbacks, that every MIR_realloc passes the container\'s true previous capacity, that every container created at init is '
             'destroyed at finish, and that code memory is written only between protect(write) and protect(exec). Heap ownership that '
